@@ -65,8 +65,10 @@ func (x *Exec) declare(name string, sort Sort) {
 	x.decls = append(x.decls, fmt.Sprintf("(declare-const %s %s)", name, sort))
 }
 
+var preludeDeclared = map[string]bool{"runeAt": true, "runeLen": true}
+
 func (x *Exec) declareFun(name string, decl string) {
-	if x.declared[name] {
+	if x.declared[name] || preludeDeclared[name] {
 		return
 	}
 	x.declared[name] = true
@@ -876,6 +878,13 @@ func (x *Exec) step(st *State, fr *Frame, instr ssa.Instruction) []*State {
 		// array value or string? (strings use Lookup) — arrays only
 		av := x.val(st, in.X).(TV)
 		idx := x.term(st, in.Index)
+		if av.T.Sort == SStr {
+			x.oblige(st, "safety", "index", And(Le(IntLit(0), idx), Lt(idx, App("slen", SInt, av.T))), in.Pos(), nil)
+			t := App("sat", SInt, av.T, idx)
+			st.assume(Le(IntLit(0), t), Le(t, IntLit(255)))
+			fr.regs[in] = TV{t, types.Typ[types.Uint8]}
+			return nil
+		}
 		arr := in.X.Type().Underlying().(*types.Array)
 		x.oblige(st, "safety", "index", And(Le(IntLit(0), idx), Lt(idx, IntLit(arr.Len()))), in.Pos(), nil)
 		fr.regs[in] = TV{Select(av.T, idx), arr.Elem()}
